@@ -65,6 +65,14 @@ def c06_2(cx):
     cx.check(bool(after_alloc), "a freshly allocated id is recorded under the identity", al, key="store-after-allocate")
     for s in after_alloc:
         cx.flow(b, cx.arg(s, 2), [r"^" + TS[1:] + r"allocate\("], [], "records the allocated id", s)
+    # an id whose generation was bumped by update() must be recorded: every path to a return passes a
+    # store_tracked_struct_id call or an edge establishing updated_id == id (full Id equality)
+    same = Cmp(r"update\(.*\)@Ok\.0$", "==", r"ZalsaLocal::tracked_struct_id\(.*\)@Some\.0$", desc="updated_id == id")
+    eng = OnlyIf(cx.facts, b)
+    edges = eng.establishing_edges(same)
+    reach = b.reachable(0, "normal", cut_edges=edges, cut_blocks={s.bb for s in st})
+    bad = [r for r in b.return_blocks() if r in reach]
+    cx.check(not bad, "new_struct returns without recording the id only if update() returned the very same Id (index and generation)", up, {"returns_reached": bad, "establishing_edges": len(edges)}, key="store-unless-same-id")
     for t in ("Identity", "IdentityHash"):
         cx.check(cx.facts.is_derived(r"^std::cmp::PartialEq$", r"^tracked_struct::%s$" % t), "%s: PartialEq is derived (covers every field)" % t, body=b, key="derived-eq " + t)
     flds = [n for n, _ in cx.facts.adts["tracked_struct::Identity"]["variants"][0]["fields"]]
